@@ -218,6 +218,11 @@ fn is_modified(entry: &FileEntry, prior: &SyncState) -> bool {
     entry.modified > prior.mtime
 }
 
+/// Whether two entries hold the same content (used when recording the synchronised state)
+pub(crate) fn same_content(source: &FileEntry, dest: &FileEntry) -> bool {
+    content_equal(source, dest).unwrap_or(false)
+}
+
 /// Check if two files have equal content
 fn content_equal(source: &FileEntry, dest: &FileEntry) -> Result<bool> {
     // Fast path: size mismatch
